@@ -15,6 +15,7 @@ WHAT = {
     "lex-short": "token ranges stop before the end of the text",
     "parse-panic": "the parser panics (no syntax tree for this text)",
     "tree-text-differs": "the text of the syntax tree differs from the input (bytes lost, duplicated or reordered)",
+    "tree-leaves-differ-from-tokens": "the leaves of the syntax tree are not the lexer's tokens (kind name, text, range) in order",
     "root-range": "the root node does not span the whole text",
     "node-range-outside-text": "a syntax node/token has a range outside the text or off a char boundary",
     "diag-range-outside-text": "a parser diagnostic has a range outside the text",
@@ -93,7 +94,7 @@ def run(ctx):
         else:
             payload = {"id": cid, "stream": stream, "input_hex": hx, "input": unhex(hx)[:400], "detail": detail}
         ctx.report({"oracle": "direct", "kind": kind}, WHAT.get(kind, kind), payload)
-    ctx.violations.sort(key=lambda v: len(v[2].get("input_hex", "")))
+    ctx.violations.sort(key=lambda v: (0, len(v[2]["input_hex"])) if "input_hex" in v[2] else (1, 0))
 
     # ---- (2) model vs implementation
     model = run_model_parallel(ctx, case_lines) if (case_lines and os.path.exists(vlib.MODEL)) else {}
@@ -157,7 +158,8 @@ def run(ctx):
         "input_streams": streams,
         "alphabet_exhaustive": "34 symbols (a f n i u A 0 1 8 _ \" \\ / LF CR SP TAB . : = > - < ! & | ( } # $ ; U+0001 é 😀) up to length 3 "
                                "(thorough: 4); 18-symbol string/number alphabet up to 4 (5); multi-line-string alphabets "
-                               "{\\ LF SP a é \" /} up to 6 (7) and {\\ LF SP 😀} up to 8 (9)",
+                               "{\\ LF SP a é \" /} up to 6 (7), {\\ LF SP 😀} up to 8 (9), {\\ LF é a SP} up to 7 (8); "
+                               "plus deeply nested inputs (12 shapes, depth 10^3..10^5) run in child processes on the default stack",
         "harness_stats": {k: v for k, v in stats.items() if not k.startswith("stream:")},
         "lexer_tie_equal": n_lex_eq, "lexer_tie_diffs": len(lex_diffs),
         "tree_tie_cases": n_tree, "tree_tie_equal": n_tree_eq, "tree_tie_diffs": len(tree_diffs),
